@@ -28,6 +28,7 @@ enum OpCode : uint16_t {
   OP_DECASTELJAU, OP_SMOOTH_PHI,
   // more tangent -> ... (the 30..59 range is full)
   OP_T_DATAPTR, OP_T_CONSTRUCT,
+  OP_CTOR,      // owning element rebuilt from the parts of a (component constructors)
   // element mutators (dst = a)
   OP_M_ASSIGN = 90, OP_M_SETIDENTITY, OP_M_SETRANDOM, OP_M_PLUSEQ, OP_M_MULEQ, OP_M_NORMALIZE,
   OP_M_COEFFWRITE, OP_M_ALIAS, OP_M_ASSIGN_EIGEN, OP_M_MOVE_ASSIGN, OP_M_SUBVIEW_WRITE, OP_M_SETTERS,
